@@ -105,7 +105,8 @@ class ParserTotal(BoundedCheck):
                     toks.insert(j, rnd.choice('()[]{}<>`'))
             yield ''.join(toks)
         if self.shard == 0:
-            for s in ('Y = {}', 'Y = {a} + }{', 'Y = {0}', 'Y = 1/0', 'Y = "a" + 1', 'Y = print(1)', '```\nx=1', 'é = 1', 'Y = H[--1]', 'Y = X\nY = X', '`self.Q = 1`\n`self.Q = 1`'):
+            for s in ('Y = {}', 'Y = {a} + }{', 'Y = {0}', 'Y = 1/0', 'Y = "a" + 1', 'Y = print(1)', '```\nx=1', 'é = 1', 'Y = H[--1]', 'Y = X\nY = X', '`self.Q = 1`\n`self.Q = 1`',
+                      '```\nscale_ = 0.5\n```', '`q_ = 3`', 'Y = X\n`import_marker_ = [1]`', '```\nglobal g_\ng_ = 1\n```'):
                 yield s
 
     def check(self, s: str, res: BoundedResult):
@@ -119,6 +120,9 @@ class ParserTotal(BoundedCheck):
         import warnings as _w
         filters_before = list(_w.filters)
         cwd = os.getcwd()
+        import fsic.parser as _fp
+        namespaces = {'fsic.parser': vars(_fp), 'fsic': vars(fsic), 'builtins': vars(builtins), '__main__': vars(sys.modules['__main__'])}
+        names_before = {k: set(v) for k, v in namespaces.items()}
         builtins.print = lambda *a, **k: printed.append(a)
         try:
             try:
@@ -137,6 +141,18 @@ class ParserTotal(BoundedCheck):
         if list(_w.filters) != filters_before:
             _w.filters[:] = filters_before
             out.append(Violation('parsing has no effect outside the returned objects (process-wide warning filters)', 'c13.side-effect:warnings-filters', s, 'unchanged', 'changed', 'no_effect'))
+        leaked = {k: sorted(set(v) - names_before[k]) for k, v in namespaces.items() if set(v) - names_before[k]}
+        if leaked:
+            for k, nms in leaked.items():
+                for nm in nms:
+                    del namespaces[k][nm]
+            # a `global` declaration inside executed statement text is the recorded exec() defect (F13) seen through another effect; a plain
+            # assignment that becomes a module global is not
+            import re as _re2
+            declared = set(_re2.findall(r'\bglobal\s+([A-Za-z_]\w*)', s))
+            only_declared = all(set(nms) <= declared for nms in leaked.values())
+            out.append(Violation('parsing has no effect outside the returned objects (names bound by statement text appear in a module namespace)',
+                                 'c13.side-effect:module-namespace' + (':global-statement' if only_declared else ''), s, 'no new names', str(leaked)[:120], 'no_effect'))
         if printed or new_mods or os.getcwd() != cwd:
             out.append(Violation('parsing never executes the model\'s statements and has no effect outside the returned objects',
                                  'c13.side-effect:syntax-check-executes-statement', s, 'no effect', f'printed={printed[:1]} imported={sorted(new_mods)[:2]}', 'no_exec'))
